@@ -19,7 +19,7 @@ from . import vtime
 
 ROOT = Path(__file__).resolve().parent.parent
 LEAN = ROOT / "lean"
-REPO = Path("/repo")
+REPO = Path(os.environ.get("VERIF_REPO", "/repo"))
 WORK = ROOT / ".work"
 REPLAYS = ROOT / "replays"
 EVIDENCE = ROOT / "evidence"
